@@ -69,13 +69,19 @@ def ref_file_name(value: str) -> str:
     return "".join("_" if (ch == "-" or ch.isspace()) else ch for ch in kept).strip("-_")
 
 
+def _zero_column_is_an_item_set(arr):
+    """an all-zero value column equals, after int(), the item set {0} of an int-typed dimension: the converter then takes the values
+    for that dimension (open finding F24, produced on purpose in C11) - the generator stays clear of it"""
+    return any(d.dtype is int and set(d.items) == {0} for d in arr.dims)
+
+
 def fill(mfa, rng):
     from ..gen import relayout
 
     k = 1
     for f in mfa.flows.values():
         n = f.values.size
-        if rng.random() < 0.12:
+        if rng.random() < 0.12 and not _zero_column_is_an_item_set(f):
             k += 1
             continue  # a flow that is zero everywhere is a flow like any other
         v = (k * 4096.0 + rng.permutation(n) * 0.25).reshape(f.dims.shape)
@@ -90,7 +96,7 @@ def fill(mfa, rng):
         for arr in (s.stock, s.inflow, s.outflow):
             n = arr.values.size
             k += 1
-            if rng.random() < 0.2:
+            if rng.random() < 0.2 and not _zero_column_is_an_item_set(arr):
                 continue  # e.g. a pure sink: its outflow is zero everywhere (and still an exported quantity)
             arr[...] = (k * 4096.0 + rng.permutation(n) * 0.25).reshape(arr.dims.shape)
 
